@@ -40,8 +40,9 @@ CONFIG = {
              "queries/paths matching 0/1/many nodes incl. containers x file vs STDIN delivery (explicit '-' and implied) x "
              "YAML vs JSON input/output x dot vs slash notation x the main options of each tool (noise flags, "
              "--same/--onlysame/--quiet, document indexes, --output/--overwrite/--backup/--document-format/"
-             "--multi-doc-mode, --check/--saveto/--mustexist/--delete/--null/--backup, the result printing options of "
-             "yaml-paths) plus a malformed stream (bad option mixes, missing files, two '-', invalid expressions); "
+             "--multi-doc-mode, --config files with [defaults]/[rules]/[keys], --check/--saveto/--mustexist/--delete/--null/"
+             "--backup/--tag/--aliasof/--anchor/--mergekey/--file/--stdin/--random/--eyamlcrypt (stand-in cipher), the "
+             "result printing options of yaml-paths) plus a malformed stream (bad option mixes, missing files, two '-', invalid expressions); "
              "non-trivial = the run got past argument validation; distinct = distinct (tool, argv, files, stdin)."),
     "trusted_base": [
         "modelled, not verified: main()/validateargs()/print helpers of yamlpath/commands/yaml_{get,set,merge,diff,"
@@ -52,10 +53,12 @@ CONFIG = {
         "delete_gathered_nodes, Differ, Merger.merge_with, search_for_paths, get_search_term, Nodes.build_next_node",
         "documents are abstract identifiers in the model: the harness numbers documents by their plain data, so two "
         "documents with equal data are one identifier",
-        "not modelled: DEBUG output (stripped before comparison), message texts, YAML/JSON formatting bytes, EYAML, "
-        "--config files, --aliasof/--mergekey/--eyamlcrypt/--random/--file/--stdin/--tag of yaml-set (branch "
-        "selection is modelled, generators do not exercise them), how yaml-paths maps its alias/key options to "
-        "search_for_paths arguments",
+        "not modelled: DEBUG output (stripped before comparison), message texts, YAML/JSON formatting bytes, the "
+        "WARNING lines MergerConfig/DifferConfig print about a --config file, how yaml-paths maps its alias/key "
+        "options to search_for_paths arguments",
+        "oracles added for yaml-set: secrets.choice (deterministic stand-in in the harness computation and the "
+        "in-process run), the EYAML binary (harness/eyaml_standin.py), how ruamel's dump of the changed document ends "
+        "and what its text loads back to, the JSON view of a JSON write, the class open(--file) raises",
     ],
     "assumptions": [
         "the model is the code only as far as the correspondence run shows",
@@ -74,6 +77,7 @@ HINT = "Please try --help for more information."
 _ENV = {}
 _CACHE = {}
 _COUNTER = [0]
+_LAST_OUT = [""]
 
 
 def init_worker():
@@ -165,6 +169,24 @@ class NullLog:
     def error(self, *a, **k): pass
     def debug(self, *a, **k): pass
     def critical(self, *a, **k): pass
+
+
+class DebugLog(NullLog):
+    """NullLog whose debug() really renders its message and data (output discarded) when --debug is
+    in force: rendering is part of how a library call ends (ConsolePrinter._debug_scalar calls str()
+    on the data and can raise)."""
+    def __init__(self, debug_on):
+        super().__init__()
+        self.cp = _ENV["ConsolePrinter"](types.SimpleNamespace(quiet=False, verbose=False, debug=True)) if debug_on else None
+
+    def debug(self, message, **kwargs):
+        if self.cp is not None:
+            saved = sys.stdout
+            sys.stdout = io.StringIO()
+            try:
+                self.cp.debug(message, **kwargs)
+            finally:
+                sys.stdout = saved
 
 
 # ----------------------------------------------------------------------------
@@ -392,6 +414,7 @@ def run_main(tool, argv, stdin_text, patches=None):
         for (obj, name, val) in reversed(undo):
             setattr(obj, name, val)
         sys.argv, sys.stdout, sys.stderr, sys.stdin, P.stdin = saved
+    _LAST_OUT[0] = out.getvalue()
     return status, out.getvalue(), err.getvalue()
 
 
@@ -418,10 +441,16 @@ def status_sx(status):
     return "(exit %s)" % I(status)
 
 
+LIB_WARNINGS = ("YAML Path matches no nodes:", "User-specified configuration file has no ")
+
+
 def strip_debug(text):
-    """DEBUG output is never compared."""
+    """DEBUG output is never compared; neither are the two WARNING lines MergerConfig / DifferConfig
+    themselves emit about a --config file (a section is missing, a rule's path matches nothing): they
+    are library messages, recognised by their text."""
     lines = text.split("\n")
-    return "\n".join(l for l in lines if not l.startswith("DEBUG:  "))
+    return "\n".join(l for l in lines if not l.startswith("DEBUG:  ")
+                     and not (l.startswith("WARNING:  ") and any(w in l for w in LIB_WARNINGS)))
 
 
 def out_lines(text):
@@ -758,18 +787,15 @@ def exec_diff(case, ns):
     # observe which documents reach the Differ
     picked = []
     mod = E["mods"]["diff"]
-    RealDiffer = mod.Differ
 
-    class SpyDiffer(RealDiffer):
-        def __init__(self, config, logger, document, **kw):
-            picked.append(("l", plain(document)))
-            super().__init__(config, logger, document, **kw)
+    real_get_doc = mod.get_doc
 
-        def compare_to(self, document):
-            picked.append(("r", plain(document)))
-            return super().compare_to(document)
+    def spy_get_doc(log, docs, index):
+        d = real_get_doc(log, docs, index)
+        picked.append(("l" if not picked else "r", plain(d)))
+        return d
 
-    status, out, err = run_main("diff", case["argv"], stdin, patches=[(mod, "Differ", SpyDiffer)])
+    status, out, err = run_main("diff", case["argv"], stdin, patches=[(mod, "get_doc", spy_get_doc)])
     text = strip_debug(out)
     lines = []
     used = set()
@@ -836,7 +862,11 @@ def judge_diff(case, f):
     if (st == 0) == differs or st not in (0, 1):
         return "yaml-diff exit status %s but the differ reports %s" % (st, "differences" if differs else "no difference")
     ld, rd = f["pair"]
-    if (ld == rd) == differs:
+    # "exit 0 exactly when data-equal" is what positional comparison (the defaults) promises (C06); with
+    # --arrays value / --aoh key|deep|value or a --config file equality is up to what those disregard
+    positional = ns.arrays in (None, "position") and ns.aoh in (None, "position", "dpos") and not ns.config
+    unkeyed = ns.aoh not in ("key", "deep") and not ns.config
+    if (positional and (ld == rd) == differs) or (unkeyed and ld == rd and differs):
         return ("library: the differ reports %s for documents that are %s" %
                 ("differences" if differs else "no difference", "data-equal" if ld == rd else "not data-equal"))
     printed = [l for l in f["printed"] if l.startswith("(entry")]
@@ -913,8 +943,9 @@ def noise_lines(text, file_mode):
     return lines, "\n".join(rest)
 
 
-def file_effects(reg, target, before_bytes, before_mtime, bak_before):
-    """Effects observed on the target file and its .bak."""
+def file_effects(reg, target, before_bytes, before_mtime, bak_before, failed=False):
+    """Effects observed on the target file and its .bak.  `failed`: the run ended in an uncaught
+    exception; the target rewritten with exactly its original bytes is then the restore path."""
     fx = []
     bak = target + ".bak"
     if os.path.exists(bak):
@@ -924,7 +955,9 @@ def file_effects(reg, target, before_bytes, before_mtime, bak_before):
     if os.path.exists(target):
         st = os.stat(target)
         nb = open(target, "rb").read()
-        if before_bytes is None or st.st_mtime_ns != before_mtime or nb != before_bytes:
+        if failed and before_bytes is not None and nb == before_bytes and st.st_mtime_ns != before_mtime:
+            fx.append("restored")
+        elif before_bytes is None or st.st_mtime_ns != before_mtime or nb != before_bytes:
             parsed = parse_dump(nb.decode("utf-8", "replace"))
             if parsed is None:
                 fx.append("(write unparsable)")
@@ -956,11 +989,18 @@ def exec_merge(case, ns):
     if target:
         import pathlib
         ext = pathlib.Path(target).suffix.lower()
-    a = "(args %s %s %s %s %s %s %s %s %s %s %s %s)" % (
+    cfgerr = "none"
+    if ns.config and os.path.isfile(ns.config):
+        from yamlpath.merger import MergerConfig
+        try:
+            MergerConfig(NullLog(), ns)
+        except Exception as e:  # noqa
+            cfgerr = "(some %s)" % hexs(type(e).__name__)
+    a = "(args %s %s %s %s %s %s %s %s %s %s %s %s %s)" % (
         B(ns.nostdin), noise_sx(ns), B(bool(ns.config)), B(bool(ns.config) and os.path.isfile(ns.config)),
         hexs(ns.output or ""), B(bool(ns.output) and os.path.exists(ns.output)),
         hexs(ns.overwrite or ""), B(bool(ns.overwrite) and os.path.exists(ns.overwrite)),
-        B(ns.backup), ns.document_format, ns.multi_doc_mode, hexs(ext))
+        B(ns.backup), ns.document_format, ns.multi_doc_mode, hexs(ext), cfgerr)
     keep = {}
     mbit = lambda d: (not hasattr(d, "fa")) or bool(d.fa.flow_style())  # noqa
     srcs = [source_sx(reg, f, stdin, keep, mbit) for f in ns.yaml_files]
@@ -1043,10 +1083,6 @@ def exec_merge(case, ns):
     facts = {"ns": ns, "status": status, "keep": keep, "stdin": stdin, "target": target, "stdout": out,
              "consumed": consumed, "lines": lines, "fx": fx, "aliasing": aliasing}
     obs = run_sx(status, lines, fx)
-    if aliasing:
-        # outside the model's domain (shared nodes between documents): the model is not consulted,
-        # the judge reports the run (known finding matrix_merge_shared_nodes)
-        req = "(cli-outside-model %s)" % obs
     return req, obs, facts
 
 
@@ -1059,8 +1095,10 @@ def judge_merge(case, f):
         return ("library: yaml-merge -M %s: Merger.merge_with worked on nodes shared by reference; a merge changed a "
                 "bystander document or never returned (%s)"
                 % (ns.multi_doc_mode, ",".join(sorted(set(f["aliasing"])))))
-    if ns.multi_doc_mode != "condense_all" or ns.config or isinstance(st, tuple):
+    if ns.multi_doc_mode != "condense_all" or isinstance(st, tuple):
         return None
+    if ns.config and not os.path.isfile(ns.config):
+        return None if st == 1 else "yaml-merge accepted a missing --config file"
     names = list(ns.yaml_files)
     dashes = sum(1 for x in names if x.strip() == "-")
     if dashes > 1 or (ns.backup and not ns.overwrite) or (ns.output and f.get("target_existed")):
@@ -1139,6 +1177,7 @@ def exec_set(case, ns0):
         I(len(ns.random_from)), B(pathlib.Path(file_eff).suffix.lower() == ".json"))
     # the library steps, on a fresh load, with the arguments main() passes
     flow = {}
+    import secrets
 
     def note(data):
         bit = bool(hasattr(data, "fa") and data.fa.flow_style())
@@ -1147,21 +1186,48 @@ def exec_set(case, ns0):
         return i
     data, fail = raw_load_one(file_eff, stdin)
     facts = {"ns": ns0, "file": file_eff, "stream": stream, "loaded": fail is None, "final": None,
-             "gather_failed": False, "check_failed": False, "orig": None}
+             "gather_failed": False, "check_failed": False, "orig": None, "dump_err": None}
     load_sx = "(fail %s)" % LST(hexs(c) for c in fail) if fail is not None else \
         "(doc %s)" % ("none" if data is None else "(some %s)" % I(note(data)))
     facts["orig"] = None if fail is not None else plain(data)
     gather_sx, built_sx = "(ok ())", "(raise (crash s))"
-    saveto_t, change_t = {}, {}
-    if fail is None:
-        log = NullLog()
+    saveto_t, change_t, dump_t, jview_t, yview_t = {}, {}, {}, {}, {}
+    # the replacement value, obtained as main() obtains it (secrets.choice is an oracle: both this
+    # computation and the real run below use the same deterministic stand-in)
+    new_value, has_new, value_ok = None, False, True
+    valfile_err = "none"
+    cverb_t = {}
+    chooser = make_chooser()
+    if ns.value or ns.value == "":
+        new_value, has_new = ns.value, True
+    elif ns.stdin:
+        new_value, has_new = ("" if stdin is None else stdin), True
+    elif ns.file:
+        try:
+            with open(ns.file, "r", encoding="utf-8") as fh:
+                new_value = fh.read().rstrip()
+            has_new = True
+        except Exception as e:  # noqa
+            value_ok = False
+            valfile_err = "(some %s)" % hexs(type(e).__name__)
+    elif ns.null:
+        new_value, has_new = None, True
+    elif ns.random is not None:
+        # (an empty / one-character pool is refused by validateargs before this point)
+        new_value, has_new = ("".join(chooser(ns.random_from) for _ in range(ns.random)) if ns.random_from else ""), True
+    facts["new_value"] = new_value
+    if fail is None and value_ok:
+        from yamlpath.enums import YAMLValueFormats
+        from yamlpath.eyaml.enums import EYAMLOutputFormats
+        log = DebugLog(bool(ns.debug) and not ns.quiet)
         change_path = E["YAMLPath"](ns.change, pathsep=ns.pathsep)
-        new_value = ns.value if ns.value is not None else None
-        has_new = ns.value is not None or ns.null
         must_exist = bool(ns.mustexist or ns.delete or ns.saveto)
         tag = ns.tag
         if tag and not tag[0] == "!":
             tag = "!" + tag
+        anchor = ns.anchor
+        if anchor:
+            anchor = anchor.replace(" ", "").replace("&", "").replace("*", "")
         ok = True
         if data is None:
             try:
@@ -1170,16 +1236,33 @@ def exec_set(case, ns0):
             except Exception as e:  # noqa
                 built_sx = "(raise %s)" % ufam(e)
                 ok = False
+        old_format = YAMLValueFormats.DEFAULT
         if ok:
             proc = E["EYAMLProcessor"](log, data, binary=ns.eyaml, publickey=ns.publickey, privatekey=ns.privatekey)
             nodes = []
             try:
                 for nc in proc.get_nodes(change_path, mustexist=True, default_value=("" if new_value else " ")):
                     nodes.append(nc)
-                gather_sx = "(ok %s)" % LST(
-                    "(sn %s (ok false) %s)" % (B(proc.is_eyaml_value(nc.node)), B(ns.check == nc.node)) for nc in nodes)
-                if ns.check and any(not (ns.check == nc.node) for nc in nodes):
-                    facts["check_failed"] = True
+                sns = []
+                for nc in nodes:
+                    is_ey = bool(proc.is_eyaml_value(nc.node))
+                    dec = "(ok false)"
+                    eq = bool(ns.check == nc.node)
+                    if is_ey and ns.check and not (bool(ns.publickey) != bool(ns.privatekey)):
+                        try:
+                            eq_dec = bool(ns.check == proc.decrypt_eyaml(nc.node))
+                            dec = "(ok %s)" % B(eq_dec)
+                            if not eq_dec:
+                                facts["check_failed"] = True
+                        except (Exception, RecursionError) as e:  # noqa
+                            dec = "(raise %s)" % ufam(e)
+                            facts["check_failed"] = True
+                    elif ns.check and (is_ey or not eq):
+                        facts["check_failed"] = True
+                    sns.append("(sn %s %s %s)" % (B(is_ey), dec, B(eq)))
+                gather_sx = "(ok %s)" % LST(sns)
+                if len(nodes) == 1:
+                    old_format = YAMLValueFormats.from_node(nodes[0].node)
             except (Exception, RecursionError) as e:  # noqa
                 gather_sx = "(raise %s)" % ufam(e)
                 nodes = []
@@ -1189,12 +1272,14 @@ def exec_set(case, ns0):
             if facts["check_failed"]:
                 ok = False
         if ok and ns.saveto:
-            from yamlpath.enums import YAMLValueFormats
             d0 = note(data)
             if len(nodes) == 1:
-                old_format = YAMLValueFormats.from_node(nodes[0].node)
+                old_value = nodes[0].node
+                if old_format in (YAMLValueFormats.FOLDED, YAMLValueFormats.LITERAL) \
+                        and E["EYAMLProcessor"].is_eyaml_value(old_value):
+                    old_value = old_value.replace(" ", "\n")
                 try:
-                    proc.set_value(E["YAMLPath"](ns.saveto, pathsep=ns.pathsep), E["Nodes"].clone_node(nodes[0].node),
+                    proc.set_value(E["YAMLPath"](ns.saveto, pathsep=ns.pathsep), E["Nodes"].clone_node(old_value),
                                    value_format=old_format, tag=tag)
                     saveto_t[d0] = "(ok %s)" % I(note(data))
                 except (Exception, RecursionError) as e:  # noqa
@@ -1204,11 +1289,26 @@ def exec_set(case, ns0):
                 ok = False
         if ok:
             d1 = note(data)
+            verb_before = len(log.verb)
             try:
                 if ns.delete:
                     proc.delete_gathered_nodes(nodes)
+                elif ns.aliasof:
+                    proc.alias_gathered_nodes(nodes, ns.aliasof, anchor_name=anchor)
+                elif ns.mergekey:
+                    proc.ymk_gathered_nodes(nodes, ns.mergekey, change_path, anchor_name=anchor)
+                elif ns.eyamlcrypt:
+                    format_type = YAMLValueFormats.from_str(ns.format)
+                    if format_type is YAMLValueFormats.DEFAULT:
+                        format_type = old_format
+                    output_type = EYAMLOutputFormats.STRING
+                    if format_type in [YAMLValueFormats.FOLDED, YAMLValueFormats.LITERAL]:
+                        output_type = EYAMLOutputFormats.BLOCK
+                    proc.set_eyaml_value(change_path, new_value, output=output_type, mustexist=False)
                 elif has_new:
                     proc.set_value(change_path, new_value, value_format=ns.format, mustexist=must_exist, tag=tag)
+                elif tag:
+                    proc.tag_gathered_nodes(nodes, tag)
                 change_t[d1] = "(ok %s)" % I(note(data))
                 facts["final"] = plain(data)
             except E["YPE"] as e:
@@ -1220,27 +1320,61 @@ def exec_set(case, ns0):
                 change_t[d1] = "eyaml"
             except (Exception, RecursionError) as e:  # noqa
                 change_t[d1] = "(crash %s)" % ufam(e)
+            cverb_t[d1] = I(len(log.verb) - verb_before)
+        if data is not None:
+            # how ruamel's dump of the state that would be written ends, and what its text loads
+            # back to (oracles)
+            yview_t[note(data)] = I(note(data))
+            try:
+                buf = io.StringIO()
+                E["Parsers"].get_yaml_editor().dump(data, buf)
+                dump_t[note(data)] = "none"
+                back = parse_dump(buf.getvalue())
+                if back is not None and not back[0] and len(back[1]) == 1:
+                    yview_t[note(data)] = I(reg.id_of_plain(back[1][0]))
+                    facts["yaml_reloads_to"] = back[1][0]
+            except (Exception, RecursionError) as e:  # noqa
+                dump_t[note(data)] = "(some %s)" % hexs(type(e).__name__)
+                facts["dump_err"] = type(e).__name__
+            # what the JSON text of the state reloads to (oracle; only read for JSON output)
+            try:
+                jview_t[note(data)] = I(reg.id_of_plain(plain(json_view(data))))
+            except (Exception, RecursionError):  # noqa
+                jview_t[note(data)] = I(note(data))
     tbl = lambda t: LST("(%s %s)" % (I(k), v) for k, v in sorted(t.items()))  # noqa
-    req = "(cli-set %s %s %s %s %s %s %s %s %s)" % (
-        a, B(tty), B(bool(ns.file) and os.path.isfile(ns.file or "")), load_sx, gather_sx, built_sx,
-        tbl(saveto_t), tbl(change_t), LST("(%s %s)" % (I(i), B(v)) for i, v in sorted(flow.items())))
+    req = "(cli-set %s %s %s %s %s %s %s %s %s %s %s %s %s)" % (
+        a, B(tty), valfile_err, load_sx, gather_sx, built_sx,
+        tbl(saveto_t), tbl(change_t), LST("(%s %s)" % (I(i), B(v)) for i, v in sorted(flow.items())), tbl(dump_t),
+        tbl(jview_t), tbl(yview_t), tbl(cverb_t))
     target = "" if stream else file_eff
     tb, tm = age(target) if target else (None, None)
     bakb = open(target + ".bak", "rb").read() if target and os.path.exists(target + ".bak") else None
-    status, out, err = run_main("set", case["argv"], stdin)
+    status, out, err = run_main("set", case["argv"], stdin, patches=[(secrets, "choice", make_chooser())])
     lines, rest = noise_lines(out, bool(target))
-    if not target and rest.strip() != "":
+    if not target and isinstance(status, tuple) and (rest.strip() != "" or facts["dump_err"]):
+        # the dumper raised half way: what it had written so far is not a document
+        lines.append("dump-partial")
+    elif not target and rest.strip() != "":
         parsed = parse_dump(rest)
         lines.append("(dump unparsable)" if parsed is None else "(dump %s %s)" % (B(parsed[0]), dump_ids(reg, parsed[1])))
         facts["dumped"] = parsed
-    fx = file_effects(reg, target, tb, tm, bakb) if target else []
+    fx = file_effects(reg, target, tb, tm, bakb, failed=isinstance(status, tuple)) if target else []
     facts.update(status=status, target=target, before=tb, stdout=out, fx=fx)
     obs = run_sx(status, lines, fx)
-    if "unparsable" in obs:
-        # the dump oracle produced a text that does not load again: the model (documents as data)
-        # has nothing to say; the judge reports the run
-        req = "(cli-outside-model %s)" % obs
     return req, obs, facts
+
+
+def make_chooser():
+    """Deterministic stand-in for secrets.choice: the k-th call returns pool[k mod len(pool)]."""
+    k = [0]
+
+    def choice(seq):
+        if not seq:
+            raise IndexError("Cannot choose from an empty sequence")
+        c = seq[k[0] % len(seq)]
+        k[0] += 1
+        return c
+    return choice
 
 
 def judge_set(case, f):
@@ -1276,6 +1410,33 @@ def judge_set(case, f):
                 pass
     if st != 0 and changed:
         return "yaml-set failed (status %s) but changed the file" % (st,)
+    if st == 0 and any("unparsable" in x for x in f["fx"]):
+        return "yaml-set exited 0 but left a file that does not load again"
+    if st == 0:
+        v = judge_random(ns, f, now.decode("utf-8", "replace") if now is not None else noise_lines(f["stdout"], False)[1])
+        if v:
+            return v
+    return None
+
+
+def judge_random(ns, f, text):
+    """--random LEN --random-from POOL: every node at the change path holds LEN characters of POOL
+    (the characters themselves are the oracle's).  Only for alphabetic pools: a string of digits is
+    re-typed by the library."""
+    E = _ENV
+    if ns.random is None or ns.value is not None or ns.stdin or ns.file or ns.null or ns.delete or ns.aliasof \
+            or ns.mergekey or ns.eyamlcrypt or not ns.random_from.isalpha() or ns.format != "default":
+        return None
+    try:
+        doc = E["Parsers"].get_yaml_editor().load(text)
+        proc = E["EYAMLProcessor"](NullLog(), doc)
+        got = [str(nc.node) for nc in proc.get_nodes(E["YAMLPath"](ns.change, pathsep=ns.pathsep), mustexist=True)]
+    except Exception:  # noqa
+        return "yaml-set --random exited 0 but the changed path does not resolve in the result"
+    want_len = max(ns.random, 0)
+    for g in got:
+        if len(g) != want_len or any(c not in ns.random_from for c in g):
+            return "yaml-set --random %d --random-from %s wrote %r" % (ns.random, ns.random_from, g)
     return None
 
 
@@ -1489,7 +1650,33 @@ def twin_of(case):
     return {"tool": case["tool"], "argv": argv, "files": files, "stdin": text}
 
 
+class _QuietFd2:
+    """The EYAML stand-in is a child process: what it writes to file descriptor 2 (its complaints
+    about keys) bypasses sys.stderr.  Point fd 2 at /dev/null while such a case runs."""
+    def __init__(self, on):
+        self.on = on
+
+    def __enter__(self):
+        if self.on:
+            sys.stderr.flush()
+            self.saved = os.dup(2)
+            self.null = os.open(os.devnull, os.O_WRONLY)
+            os.dup2(self.null, 2)
+
+    def __exit__(self, *a):
+        if self.on:
+            os.dup2(self.saved, 2)
+            os.close(self.saved)
+            os.close(self.null)
+        return False
+
+
 def _run_one(case):
+    with _QuietFd2(any("eyaml" in str(x) for x in case["argv"])):
+        return _run_one_inner(case)
+
+
+def _run_one_inner(case):
     tool = case["tool"]
     d = _setup_dir(case)
     cwd = os.getcwd()
@@ -1506,6 +1693,7 @@ def _run_one(case):
             facts_before["target_existed"] = os.path.exists(ns.output)
         req, obs, facts = EXEC[tool](case, ns)
         facts.update(facts_before)
+        facts["raw_stdout"] = _LAST_OUT[0]
         if case.get("script"):
             facts["script"] = run_script(case, facts)
         facts["judge"] = JUDGE[tool](case, facts)
@@ -1529,7 +1717,9 @@ def run_script(case, facts):
         else:
             # "no STDIN document" means a terminal: give the script a pseudo-terminal nobody writes to
             # (never for a command line that names "-": it would wait for the terminal)
-            if any(x.strip() == "-" for x in case["argv"]):
+            # (nor for yaml-set --stdin: reading the VALUE from a terminal waits for the user as well)
+            if any(x.strip() == "-" for x in case["argv"]) or \
+                    (case["tool"] == "set" and any(x in ("-i", "--stdin") for x in case["argv"])):
                 return None
             m, sl = os.openpty()
             try:
@@ -1614,6 +1804,13 @@ def judge(case, obs):
         want = 1 if isinstance(st, tuple) else st
         if sc["rc"] != want:
             return "console script exit status %s, in-process %s" % (sc["rc"], want)
+        # ... and the same standard output, byte for byte (DEBUG lines aside; --random values are the
+        # oracle's: the in-process run uses the deterministic stand-in for secrets.choice)
+        av = case["argv"]
+        if not any(x in ("-R", "--random") or str(x).startswith("--random=") for x in av):
+            a, b = strip_debug(sc["stdout"]), strip_debug(facts.get("raw_stdout", ""))
+            if a != b:
+                return "console script printed %r, the in-process run %r" % (a[:160], b[:160])
     return None
 
 
@@ -1636,29 +1833,24 @@ def undescribe(d):
     return d
 
 
-def _is_library_diff_finding(case, obs):
-    req, o, facts = _execute(case)
-    v = facts.get("judge")
-    return bool(v) and v.startswith("library: the differ")
-
-
-def _is_shared_nodes_finding(case, obs):
-    req, o, facts = _execute(case)
-    return case["tool"] == "merge" and bool(facts.get("aliasing"))
-
-
-def _is_float_format_finding(case, obs):
-    """yaml-set --format float with a value that has no '.': the library writes `!!float '9'`,
-    which ruamel refuses to load again (ValueError in construct_yaml_float)."""
-    if case["tool"] != "set" or "(write unparsable)" not in obs[0]:
+def _is_block_scalar_indent_finding(case, obs):
+    """ruamel's emitter writes a wrong indentation indicator for a literal / folded block scalar whose
+    first line starts with a space (`|4-` + 4 columns for "  x" at indent 2): the text loads back
+    without the leading spaces.  Holds of a yaml-set run whose post-state, dumped and reloaded by the
+    harness itself, is not the post-state, and which wrote such a block scalar."""
+    if case["tool"] != "set":
         return False
-    av = case["argv"]
-    return any(a == "float" and i > 0 and av[i - 1] in ("-F", "--format") for i, a in enumerate(av)) or \
-        "--format=float" in av
+    req, o, facts = _execute(case)
+    back, final = facts.get("yaml_reloads_to"), facts.get("final")
+    if back is None or final is None or back == final:
+        return False
+    ns = facts["ns"]
+    val = facts.get("new_value")
+    return ns.format in ("literal", "folded") and isinstance(val, str) and val[:1] == " "
 
 
-FINDING_PREDS = {"set_float_format_unloadable": _is_float_format_finding,
-                 "differ_vs_data_equality": _is_library_diff_finding,
-                 "matrix_merge_shared_nodes": _is_shared_nodes_finding}
+# the three former findings (differ vs data equality, matrix merges sharing nodes, `--format float`
+# writing an unloadable file) were repaired in the library
+FINDING_PREDS = {"ruamel_block_scalar_indent": _is_block_scalar_indent_finding}
 
 from c16_gen import chunks, corpus_chunks  # noqa: E402,F401
